@@ -386,6 +386,9 @@ class FnDirective:
         self.rws = []       # (rule, n, from, to, regex?)
         self.ins = []       # (where, k, pattern, lines)
         self.attrs = []     # verifier attributes placed before the signature (rule A5)
+        self.arm_anchor = None
+        self.arm_tail = None
+        self.arm_header = []
 
 
 class Region:
@@ -415,10 +418,42 @@ def parse_opts(words):
     return opts
 
 
+def slice_arm(src, it, anchor, qual):
+    """Rule R4: the block of the match arm whose pattern text is `anchor` inside function `it`."""
+    toks = src.toks
+    body_start = toks[it.open].start
+    body_end = toks[it.close].end
+    pos = src.src.find(anchor, body_start, body_end)
+    if pos < 0 or src.src.find(anchor, pos + 1, body_end) >= 0:
+        raise LostAnchor(f'{qual}: match arm {anchor!r} not found exactly once')
+    # first `=>` after the anchor, then the arm's block
+    k = next(i for i, t in enumerate(toks) if t.start >= pos + len(anchor.rstrip().removesuffix('=>').rstrip()))
+    while k < it.close and not (toks[k].text == '=' and toks[k + 1].text == '>'):
+        if toks[k].kind == 'punct' and toks[k].text in '([{':
+            k = toks[k].match
+        k += 1
+    k += 2
+    while toks[k].kind in rustlex.SIG:
+        k += 1
+    if toks[k].text != '{':
+        raise LostAnchor(f'{qual}: match arm {anchor!r} is not a block')
+    return k, toks[k].match
+
+
 def render_fn(d, log):
     src = load_source(d.relpath)
     it, impl = find_fn(src, d.qual)
     toks = src.toks
+    if d.opts.get('arm'):
+        o, c = slice_arm(src, it, d.arm_anchor, d.qual)
+        sig = '\n'.join(d.arm_header) + '\n'
+        inner = src.src[toks[o].end:toks[c].start]
+        body = '{' + inner + ('\n' + d.arm_tail + '\n' if d.arm_tail else '') + '}'
+        src_start = rustlex.line_of(src.src, toks[o].start)
+        src_end = rustlex.line_of(src.src, toks[c].end)
+        log.append(dict(rule='R4', fn=d.qual, arm=d.arm_anchor, what='match arm extracted as a function over its bindings and free variables'))
+        sha = hashlib.sha256(body.encode()).hexdigest()
+        return _finish_fn(d, log, sig, body, src_start, src_end, sha, [], d.opts.get('name') or 'arm')
     sig = src.src[toks[it.head].start:toks[it.open].start]
     body = src.src[toks[it.open].start:toks[it.close].end]
     src_start = rustlex.line_of(src.src, toks[it.head].start)
@@ -432,6 +467,10 @@ def render_fn(d, log):
     sig = sig2
     if d.opts.get('name'):
         sig = re.sub(r'\bfn\s+' + re.escape(it.name) + r'\b', 'fn ' + d.opts['name'], sig, count=1)
+    return _finish_fn(d, log, sig, body, src_start, src_end, sha, dropped_attrs, d.opts.get('name') or it.name)
+
+
+def _finish_fn(d, log, sig, body, src_start, src_end, sha, dropped_attrs, emitted_name):
     text = sig + '\x00' + body   # \x00 marks the signature/body boundary through rewrites
     for (rule, n, frm, to, is_re) in d.rws:
         if is_re:
@@ -483,14 +522,14 @@ def render_fn(d, log):
             raise UnitError('ins: before|after')
     for off, txt in sorted(inserts, key=lambda x: -x[0]):
         body = body[:off] + txt + body[off:]
-    contract = '\n'.join(d.contract)
+    contract = '' if d.opts.get('arm') else '\n'.join(d.contract)
     for a in d.attrs:
         if 'external_body' in a or 'external' in a.replace('external_', ''):
             raise UnitError(f'{d.qual}: external attributes are never added to an extracted function')
     out = ('\n'.join(d.attrs) + '\n' if d.attrs else '') + sig.rstrip() + '\n' + (contract + '\n' if contract else '') + body
     meta = dict(src_file=d.relpath, src_start=src_start, src_end=src_end, sha256=sha,
                 qual=d.qual, props=d.opts.get('props', ''), dropped_attrs=dropped_attrs,
-                emitted_name=d.opts.get('name') or it.name)
+                emitted_name=emitted_name)
     return out, meta
 
 
@@ -618,8 +657,12 @@ def generate(unit_path):
             n = len(lines)
             unit.setdefault('includes', []).append(words[1])
             continue
-        if cmd == 'fn':
+        if cmd in ('fn', 'arm'):
             d = FnDirective(words[1], words[2], parse_opts(words[3:]), i + 1)
+            if cmd == 'arm':
+                d.opts['arm'] = True
+                d.arm_anchor = None
+                d.arm_tail = None
             i += 1
             mode = ('contract', None)
             cur = None
@@ -646,6 +689,10 @@ def generate(unit_path):
                         raise UnitError(f'{unit_path}:{i + 1}: unexpected payload')
                     i += 1
                     continue
+                if tag == '-' and d.opts.get('arm') and d.arm_anchor is None and mode[0] == 'contract':
+                    d.arm_anchor = rest
+                    i += 1
+                    continue
                 if tag == '-':
                     cur['from'].append(rest)
                     i += 1
@@ -667,6 +714,8 @@ def generate(unit_path):
                     mode = ('rw', None)
                 elif w2[0] == 'attr':
                     mode = ('attr', None)
+                elif w2[0] == 'tail':
+                    d.arm_tail = s2[len('//@tail'):].strip()
                 elif w2[0] == 'ins':
                     cur = dict(where=w2[1], k=int(w2[2]), **{'from': []}, lines=[])
                     d.ins.append(cur)
@@ -676,6 +725,7 @@ def generate(unit_path):
                 i += 1
             d.rws = [(r['rule'], r['n'], '\n'.join(r['from']), '\n'.join(r['to']), r['re']) for r in d.rws]
             d.ins = [(r['where'], r['k'], '\n'.join(r['from']), r['lines']) for r in d.ins]
+            d.arm_header = list(d.contract)
             text, meta = render_fn(d, log)
             start = cur_line()
             out.append(text)
